@@ -134,5 +134,5 @@ func main() {
 	hk.Main(seqmc.Check(harness,
 		"BFS over all registry histories up to the depth bound on 3 event types with shared nodes (RegisterNode, RegisterPipeline, RemovePipeline, RemovePipelineAndNodes); in every reached state: Reopen with no failing node (with a live and with an already-cancelled context) must return nil and have invoked Reopen on every node object of every registered pipeline; with all objects of one node id failing (each node id in turn) it must return an error for which errors.Is(err, thatNode'sError) holds iff a registered pipeline contains such an object. The iteration order over the event types' graphs and over sync.Map.Range is an explored permutation for the Reopen step.",
 		[]string{"depth 7 (quick) / 9 (thorough); 3 event types, 4 node ids, 6 pipeline definitions incl. pipelines sharing a leading node and one listing a node twice"},
-		150*time.Second, 45*time.Minute))
+		300*time.Second, 45*time.Minute))
 }
